@@ -481,6 +481,24 @@ func check(prop, tier string, seed int64, scratch string, t0 time.Time) int {
 				okN, badN, detail = confirm(worker, extraEnv, prop, tier, path, f.Fingerprint, 20)
 			}
 		}
+		if okN == 0 && !strings.HasPrefix(f.Fingerprint, "fatal:") {
+			// The case alone does not fail. It may need what the cases before it left behind in the
+			// process (state that survives a call): run its shard again, in fresh processes, up to
+			// the case. Two reproductions out of two confirm it, and the replay file says so.
+			h := 0
+			for i := 0; i < 2; i++ {
+				if confirmWithHistory(worker, extraEnv, prop, tier, &f) {
+					h++
+				}
+			}
+			if h == 2 {
+				f.NeedsHistory = true
+				path = writeReplay(prop, &f)
+				okN = 5
+				detail = "fails only after the cases that precede it in shard " + f.Shard
+				fmt.Fprintf(os.Stderr, "note: %s: %s\n", f.Fingerprint, detail)
+			}
+		}
 		// A failure is confirmed when it shows again in a fresh process - with whatever fingerprint:
 		// the oracles are deterministic functions of what the library returns, but the library's own
 		// behaviour may depend on Go's map iteration order (uncontrolled outside the order variant),
@@ -669,6 +687,37 @@ func confirm(worker string, extraEnv []string, prop, tier, path, fingerprint str
 	return
 }
 
+// confirmWithHistory runs the shard of a failure again in a fresh process, up to and including the
+// failing case, and says whether that case fails again.
+func confirmWithHistory(worker string, extraEnv []string, prop, tier string, f *core.Failure) bool {
+	ctx, cancel := context.WithTimeout(context.Background(), 600*time.Second)
+	defer cancel()
+	cmd := exec.CommandContext(ctx, worker, "run", prop, tier, f.Shard, "-stopafter", fmt.Sprint(f.Case))
+	cmd.Dir = emptyDir(worker)
+	cmd.Env = append(append(goEnv(), "GOMAXPROCS=1", raceEnv(worker)), extraEnv...)
+	var out bytes.Buffer
+	cmd.Stdout = &out
+	cmd.Run()
+	for _, line := range bytes.Split(out.Bytes(), []byte("\n")) {
+		var rec struct {
+			Failure  *core.Failure  `json:"failure"`
+			Failures []core.Failure `json:"failures"`
+		}
+		if json.Unmarshal(line, &rec) != nil {
+			continue
+		}
+		if rec.Failure != nil && rec.Failure.Case == f.Case {
+			return true
+		}
+		for _, g := range rec.Failures {
+			if g.Case == f.Case {
+				return true
+			}
+		}
+	}
+	return false
+}
+
 func replayCmd(path string) int {
 	b, err := os.ReadFile(path)
 	if err != nil {
@@ -697,7 +746,16 @@ func replayCmd(path string) int {
 	if tier == "" {
 		tier = "quick"
 	}
-	same, other, detail := confirm(worker, extraEnv, f.Property, tier, path, f.Fingerprint, 1)
+	same, other, detail := 0, 0, ""
+	if f.NeedsHistory {
+		if confirmWithHistory(worker, extraEnv, f.Property, tier, &f) {
+			same = 1
+		} else {
+			detail = "shard " + f.Shard + " run up to case " + fmt.Sprint(f.Case) + ": the case does not fail"
+		}
+	} else {
+		same, other, detail = confirm(worker, extraEnv, f.Property, tier, path, f.Fingerprint, 1)
+	}
 	fmt.Printf("classes=%v fingerprint=%s\ninput=%s\nexpected=%s\nobserved=%s\n", f.Classes, f.Fingerprint, f.Input, f.Expected, f.Observed)
 	os.RemoveAll(scratch)
 	if same == 1 {
